@@ -51,7 +51,7 @@ int pre(const char* kind, const std::string& path) {
 	int n = ++G.nops; if (G.trace.size() < 100000) G.trace.push_back({n, kind, path.substr(G.root.size())});
 	if (G.mode == CRASH && n == G.k && !G.after) { death_note("crash-before", n); _exit(137); }
 	if (G.mode == FAIL && ((G.k > 0 && (n == G.k || (G.sticky && n >= G.k))) || (G.k <= 0 && G.kind == kind))) { G.injected++; errno = G.err; return 1; }
-	if (G.mode == DELAY) { uint64_t r = xs(G.seed); if ((double)(r & 0xFFFF) / 65536.0 < G.p) { reent++; usleep((r >> 20) % (G.maxus + 1)); reent--; } }
+	if (G.mode == DELAY && (G.kind.empty() || strstr(kind, G.kind.c_str()))) { uint64_t r = xs(G.seed); /* "kind": only operations whose kind contains this text are delayed (e.g. "sync") */ if ((double)(r & 0xFFFF) / 65536.0 < G.p) { reent++; usleep((r >> 20) % (G.maxus + 1)); reent--; } }
 	return 0;
 }
 void post(const char* kind, const std::string& path, int fd_for_torn) {
